@@ -114,9 +114,14 @@ fn pack_serialize(m: &IndexMap<String, Vec<u8>>) -> Result<Vec<u8>, Value> {
     }
 }
 
-fn pack_replay(cases_path: &str, out_path: &str) {
+/// Replays generated cases.  What mila's own builder emits is NOT judged here: every serialized image is
+/// logged to `events_path` (same event shape as pack-record) and validated by Trace_Fe9Pack, i.e. by the
+/// statement's conditions evaluated by TLC on mila's bytes.  A difference from CanonPack(v) is reported as
+/// kind "info" only (where names sit and how they are padded is not fixed by the property).
+fn pack_replay(cases_path: &str, out_path: &str, events_path: &str) {
     let cases = read_ndjson(cases_path);
     let mut out = NdWriter::create(out_path);
+    let mut events = NdWriter::create(events_path);
     let (mut n, mut bad, mut unbuildable, mut images) = (0u64, 0u64, 0u64, 0u64);
     for (i, c) in cases.iter().enumerate() {
         n += 1;
@@ -129,22 +134,20 @@ fn pack_replay(cases_path: &str, out_path: &str) {
             }
         };
         let expect = json!({"ok": true, "v": c["v"]});
-        // builder: byte-exact against CanonPack(v)
-        match pack_serialize(&map) {
-            Ok(b) => {
-                if bytes_to_json(&b) != c["canon"] {
-                    bad += 1;
-                    out.put(&json!({"kind": "mismatch", "what": "serialize", "i": i, "v": c["v"], "expected": c["canon"], "got": bytes_to_json(&b)}));
-                }
-                let back = pack_parse(&b);
-                if back != expect {
-                    bad += 1;
-                    out.put(&json!({"kind": "mismatch", "what": "parse-own-image", "i": i, "v": c["v"], "image": bytes_to_json(&b), "got": back}));
-                }
+        // builder: the image goes to the trace validator; byte equality with CanonPack(v) is information only
+        let mut ev = pack_event(&map, "full");
+        ev["src"] = json!("replay");
+        ev["case"] = json!(i);
+        events.put(&ev);
+        if let Ok(b) = pack_serialize(&map) {
+            if bytes_to_json(&b) != c["canon"] {
+                out.put(&json!({"kind": "info", "what": "serialize-differs-from-canon", "i": i, "got_len": b.len(), "canon_len": c["canon"].as_array().unwrap().len()}));
             }
-            Err(e) => {
+            // build -> parse identity (the expected value is the input itself)
+            let back = pack_parse(&b);
+            if back != expect {
                 bad += 1;
-                out.put(&json!({"kind": "mismatch", "what": "serialize", "i": i, "v": c["v"], "expected": c["canon"], "got": e}));
+                out.put(&json!({"kind": "mismatch", "what": "parse-own-image", "i": i, "v": c["v"], "image": bytes_to_json(&b), "got": back}));
             }
         }
         // reader: the canonical image and every conforming re-arrangement
@@ -163,6 +166,7 @@ fn pack_replay(cases_path: &str, out_path: &str) {
     }
     out.put(&json!({"kind": "summary", "cases": n, "images": images, "mismatches": bad, "unbuildable": unbuildable}));
     out.finish();
+    events.finish();
 }
 
 fn pack_random_len(rng: &mut Rng) -> usize {
@@ -181,9 +185,9 @@ fn pack_event(map: &IndexMap<String, Vec<u8>>, mode: &str) -> Value {
     match pack_serialize(map) {
         Ok(b) => {
             let parsed = pack_parse(&b);
-            json!({"mode": mode, "value": value, "ser": "ok", "bytes": bytes_to_json(&b), "parsed": parsed})
+            json!({"mode": mode, "src": "random", "value": value, "ser": "ok", "bytes": bytes_to_json(&b), "parsed": parsed})
         }
-        Err(e) => json!({"mode": mode, "value": value, "ser": e.to_string(), "bytes": [], "parsed": {"ok": false, "v": []}}),
+        Err(e) => json!({"mode": mode, "src": "random", "value": value, "ser": e.to_string(), "bytes": [], "parsed": {"ok": false, "v": []}}),
     }
 }
 fn pack_record(out_path: &str, runs: usize, max_files: usize, big: bool) {
@@ -469,7 +473,8 @@ fn arc_random_content(rng: &mut Rng, max_files: usize) -> (String, Value) {
                     }
                     if j == victim && kind == "wrapsum" {
                         // start inside the region, start + size = small value modulo 2^32
-                        size = 0x1_0000_0000u64 - (body_addr[*f].max(1) as u64) + rng.below(4) as u64;
+                        let a = body_addr[*f].max(1);
+                        size = 0x1_0000_0000u64 - a as u64 + rng.below(a.min(4)) as u64; // < 2^32: it is the stored word
                     }
                     data.extend([0u8; 4]);
                     data.extend(le32(if rng.chance(1, 2) { *f } else { j }));
@@ -983,7 +988,8 @@ fn main() {
     let args: Vec<String> = std::env::args().skip(1).collect();
     let a: Vec<&str> = args.iter().map(|s| s.as_str()).collect();
     match a.as_slice() {
-        ["pack-replay", cases, out] => pack_replay(cases, out),
+        ["pack-replay", cases, out] => pack_replay(cases, out, &format!("{}.events", out)),
+        ["pack-replay", cases, out, events] => pack_replay(cases, out, events),
         ["pack-record", out, runs, max_files] => pack_record(out, runs.parse().unwrap(), max_files.parse().unwrap(), false),
         ["pack-record", out, runs, max_files, "big"] => pack_record(out, runs.parse().unwrap(), max_files.parse().unwrap(), true),
         ["arc-replay", cases, out] => arc_replay(cases, out),
